@@ -21,6 +21,7 @@ EXPLANATION = (
     "pushed/popped in pairs, lookup is innermost-first, and a lambda's own parameters (all five kinds) shadow pending substitutions; "
     "(R3e) substitution under a binder must not capture free names of the substituted argument."
     " (R3f) the names a call frame binds are fresh (make_args_unique / arg_name): the fusion rules visit text that was already substituted, and with fresh keys it cannot be substituted twice - which also makes the moment at which arguments are visited (R3a) immaterial; (R5) projection out of a dictionary literal with repeated (equal) constant keys selects the last entry, as python does."
+    " (R2, round 10) the renamer of make_args_unique hides the names of all five parameter kinds of nested lambdas."
 )
 NOT_DECIDED = "value equality of original and simplified query on datasets; termination of the rewriting."
 
